@@ -38,6 +38,7 @@ def run(ctx):
     for kind in ('other-go-program', 'missing-program', 'relative-after-chdir'):
         ctx.absorb(ctx.child(bd, run='TestC10Argv0', timeout=300, env={'VERIF_C10_MODE': 'default', 'VERIF_C10_ARGV0': kind}, label='argv0-' + kind), what='TestC10Argv0[' + kind + ']')
     ctx.absorb(ctx.child(bd, run='TestC10Names', timeout=300, env={'VERIF_C10_MODE': 'default'}, label='names'), what='TestC10Names')
+    ctx.absorb(ctx.child(bd, run='TestC10AfterListing', timeout=600, env={'VERIF_C10_MODE': 'default'}, label='listing'), what='TestC10AfterListing')
     ctx.absorb(ctx.child(bd, run='TestC10ByNameMany', timeout=300, env={'VERIF_C10_MODE': 'default'}, label='bynamemany'), what='TestC10ByNameMany')
     ctx.absorb(ctx.child(bd, run='TestC10Concurrent', timeout=600, env={'VERIF_C10_MODE': 'default'}, label='concurrent'), what='TestC10Concurrent')
     if ctx.stats.get('functions_exact:default', 0) < 1000 or ctx.stats.get('variables_exact:default', 0) < 100:
